@@ -115,6 +115,4 @@ func AnalyseWith(repo string, scope map[string]func(file string) bool, allowText
 	return res, nil
 }
 
-// Only and Except build file filters for AnalyseWith scopes.
-func Only(names ...string) func(string) bool   { return only(names...) }
-func Except(names ...string) func(string) bool { return except(names...) }
+// Only and Except (file filters for AnalyseWith scopes) are exported in api.go.
